@@ -437,6 +437,37 @@ def logfloor(ctx, R="R-C03-logfloor"):
         first = astq.text(st[0].value).replace(" ", "")
         ctx.check(first == "self._y_buf[0,0,:]+self._y_buf[1,1,:]", R, f, st[0], "a frame is first-half window x first block + second-half window x second block",
                   "frame accumulation is %s" % astq.text(st[0].value))
+    # the frame handed back, by value, in every setting of the options the routine may consult
+    ybuf = S.sym("self._y_buf")
+    full = S.call("slice", S.NONE, S.NONE, S.NONE)
+    acc_want = S.add(S.call("getitem", ybuf, S.call("tuple", S.ZERO, S.ZERO, full)), S.call("getitem", ybuf, S.call("tuple", S.ONE, S.ONE, full)))
+    n_val = 0
+    for log in (True, False):
+        for power in (True, False):
+            for energy in (True, False):
+                try:
+                    ev = cc.body_eval(prog, f, f.node.body, seed={"self._log": log, "self._power": power, "self._include_energy": energy})
+                    v = ev.env.get("coeffs")
+                except Exception:
+                    v = None
+                if v is None or S.has_unknown(v):
+                    continue
+                # the accumulator attribute may carry another name
+                bases = {x.args[1] for x in S.walk(v) if isinstance(x, S.E) and x.op == "call" and x.args[0] == "getitem" and isinstance(x.args[1], S.E)
+                         and x.args[1].op == "sym" and str(x.args[1].args[0]).startswith("self.")}
+                if len(bases) == 1 and ybuf not in bases:
+                    v = S.subst(v, {list(bases)[0]: ybuf})
+                want = S.call("log", S.emax(acc_want, S.sym("pydrobert.speech.config.LOG_FLOOR_VALUE"))) if log else acc_want
+                if v == acc_want and log:
+                    continue  # reported by the clauses below (missing log)
+                same = v == want or S.compare(v, want, domain={})["verdict"] == "equal"
+                n_val += 1
+                if not same and not (S.show(v) == S.show(want)):
+                    ctx.bad(R, f, f.node, "[use_log=%s, use_power=%s, include_energy=%s] the frame handed back is %s ; documented: every coefficient (the energy "
+                            "included, which went through the same |.|^p and window as the others) is the sum of the two half-window accumulators%s"
+                            % (log, power, energy, S.show(v)[:160], ", floored and logged" if log else ""),
+                            "a frame is the sum of its two half-window accumulators, in every option setting", robust=True)
+    ctx.ok(R, f.loc(), "a frame is the sum of its two half-window accumulators, in every option setting", "%d option settings evaluated" % n_val)
     logs = [n for n in st if "np.log" in astq.text(n.value)]
     ok = len(logs) == 1 and astq.eq_text(logs[0].value, "np.log(np.maximum(coeffs,config.LOG_FLOOR_VALUE))")
     pm = astq.parents(f)
